@@ -487,7 +487,7 @@ func (fx *FX) closureCreated(fr *frame, st *State, t *ssa.MakeClosure, clo *Clos
 	}
 	env := fx.newEnv(fr, st)
 	env.names = fx.freeVarNames(fr, st, fn, clo.Bindings)
-	env.onlyNames = true
+	env.onlyNames = !c.Trusted // an unverified closure's creation-time requirements may mention the creator's variables
 	for _, cl := range c.ClosureGhost {
 		val := fx.evalExpr(env, cl.Expr)
 		val = coerce(val, fx.compSorts["G:"+cl.Name], true)
